@@ -1,6 +1,7 @@
 package statictypes
 
 import (
+	"reflect"
 	"time"
 
 	dupa "verifharness/statictypes/dupa/shared"
@@ -315,4 +316,26 @@ func init() {
 	regRec[HRecAnonSlice]()
 	regRec[HRecAnonMap]()
 	regRec[HRecAnonPtr]()
+}
+
+// LocalTwins returns two distinct struct types that are both called Item and live in the same package
+// (function-scoped declarations): equal Name(), equal PkgPath(), different fields.
+func LocalTwins() (reflect.Type, reflect.Type) {
+	a := func() reflect.Type {
+		type Item struct {
+			SKU string `json:"sku"`
+			Qty int64  `json:"qty"`
+		}
+		return reflect.TypeOf(Item{})
+	}()
+	b := func() reflect.Type {
+		type Item struct {
+			SKU    string   `json:"sku"`
+			Amount float64  `json:"amount"`
+			Tags   []string `json:"tags"`
+			Qty    *int64   `json:"qty"`
+		}
+		return reflect.TypeOf(Item{})
+	}()
+	return a, b
 }
